@@ -187,6 +187,19 @@ func (s *stepper) judgeDone(conn int, req wire.Msg, res rawpeer.Result, calls []
 		if res.Msg.Type != wire.Rlerror || !(v.AnyErrno || inSet(v.ForwardFail, errno) || (firstErr != nil && inSet(errnoSet(firstErr.ErrVal), errno))) {
 			viol("request-must-fail("+v.Why+")", map[string]any{"acceptable_errnos": v.ForwardFail})
 		}
+	case v.LocalOrForward && t == wire.Tclunk && anyErr(calls):
+		// a backend error at any point of a request is that request's answer:
+		// a Close that fails while the clunk drops its references - the fid's
+		// own File or a parent that goes with it - is reported
+		var union []int64
+		for _, cl := range calls {
+			if cl.ErrVal != nil {
+				union = append(union, errnoSet(cl.ErrVal)...)
+			}
+		}
+		if res.Msg.Type != wire.Rlerror || !inSet(union, errno) {
+			viol("clunk-does-not-report-the-error-of-a-Close-it-caused", map[string]any{"acceptable_errnos": union})
+		}
 	case v.LocalOrForward:
 		if res.Msg.Type != v.Success && !(res.Msg.Type == wire.Rlerror && anyErr(calls)) {
 			viol("wrong-reply", map[string]any{"want": wire.TypeName(v.Success)})
